@@ -145,7 +145,11 @@ where
 
   fn on_admit(&self, key: &K, cost: u64) -> AdmissionDecision<K> {
     let mut state = self.state.lock();
-    if !state.protected.contains(key) && !state.probationary.contains(key) {
+    if state.protected.contains(key) {
+      // Re-admission of a protected key: record its new cost.
+      state.protected.push_front(key.clone(), cost);
+    } else {
+      // New key, or re-admission of a probationary key with its new cost.
       state.probationary.push_front(key.clone(), cost);
     }
     AdmissionDecision::Admit
